@@ -81,42 +81,49 @@ def load_contracts():
     HAS_BRACKET = "'[' in ufun_str('without_outer_comment', path)"
     match_part = "ufun_str('without_outer_comment', path)[ufun_str('without_outer_comment', path).find('['):]"
     types = {"csvpath": "obj:CsvPath", "path": "str", "file": "str", "pathsname": "str", "filename": "str", "by_line": "bool", "self.results_manager": "obj:ResultsManager",
-             "csvpath.metadata": "dict[str,val]", "csvpath.g_last_parsed": "str", "csvpath.g_parse_calls": "int"}
-    common = dict(class_fields=CF, macros=MACROS, returns="none", native={"skip": True}, stub_new=["MetadataParser"])
+             "csvpath.metadata": "dict[str,val]", "csvpath.g_last_parsed": "str", "csvpath.g_parse_calls": "int", "csvpath.delimiter": "str", "csvpath.quotechar": "str"}
+    common = dict(class_fields=CF, macros=MACROS, returns="none", native={"skip": True}, stub_new=["MetadataParser"], inline=["CsvPaths._read_as_saved"])
+    AS_SAVED = "csvpath.delimiter == ',' and csvpath.quotechar == '\"'"
     cs.append(Contract(
         target=f"{CPS}::CsvPaths._load_csvpath", variant="preceding_with_a_predecessor", types=types,
         requires=["csvpath.g_preceding", "not filename.startswith('$')", "not pathsname.startswith('$')", HAS_BRACKET],
-        modifies=["csvpath.g_last_parsed", "csvpath.g_parse_calls", "csvpath.metadata"],
+        modifies=["csvpath.g_last_parsed", "csvpath.g_parse_calls", "csvpath.metadata", "csvpath.delimiter", "csvpath.quotechar"],
         raises={"CsvPathsException": {"when": "by_line", "exact": True}, "Exception": {"when": "True", "exact": False}},
-        ensures={"reads_the_predecessors_data_file": "csvpath.g_parse_calls >= old(csvpath.g_parse_calls) + 1 and "
+        ensures={"reads_it_in_the_dialect_data_csv_is_written_in": AS_SAVED,
+                 "reads_the_predecessors_data_file": "csvpath.g_parse_calls >= old(csvpath.g_parse_calls) + 1 and "
                                                      "csvpath.g_last_parsed == '$' + self.results_manager.g_pred.g_data_file_path + %s" % match_part,
                  "says_so_in_the_metadata": "'source-mode-source' in csvpath.metadata and same(csvpath.metadata['source-mode-source'], self.results_manager.g_pred.g_data_file_path)"},
         covers={"an_empty_predecessor_is_still_the_predecessor": "self.results_manager.g_pred.g_len == 0 and csvpath.g_parse_calls == old(csvpath.g_parse_calls) + 1"},
         callee_variants={"ResultsManager.get_last_named_result": "found"},
-        property_clauses={"reads_the_predecessors_data_file": "C20", "says_so_in_the_metadata": "C20", "raises:CsvPathsException.must": "C20"},
+        property_clauses={"reads_the_predecessors_data_file": "C20", "says_so_in_the_metadata": "C20", "raises:CsvPathsException.must": "C20",
+                          "reads_it_in_the_dialect_data_csv_is_written_in": "C20"},
         doc={"reads_the_predecessors_data_file": "C20: 'a member with source-mode: preceding reads exactly the lines its predecessor collected'"}, **common))
     cs.append(Contract(
         target=f"{CPS}::CsvPaths._load_csvpath", variant="origin_mode", types=types,
         requires=["not csvpath.g_preceding", "not filename.startswith('$')", HAS_BRACKET],
         modifies=["csvpath.g_last_parsed", "csvpath.g_parse_calls", "csvpath.metadata"], raises={"Exception": {"when": "True", "exact": False}},
         ensures={"reads_the_named_file": "csvpath.g_parse_calls >= old(csvpath.g_parse_calls) + 1 and csvpath.g_last_parsed == '$' + file + %s" % match_part,
-                 "metadata_does_not_claim_a_predecessor": "('source-mode-source' in csvpath.metadata) == ('source-mode-source' in old(csvpath.metadata))"},
+                 "metadata_does_not_claim_a_predecessor": "('source-mode-source' in csvpath.metadata) == ('source-mode-source' in old(csvpath.metadata))",
+                 "reads_it_in_its_own_dialect": "csvpath.delimiter == old(csvpath.delimiter) and csvpath.quotechar == old(csvpath.quotechar)"},
         callee_variants={"ResultsManager.get_last_named_result": "found"},
-        property_clauses={"reads_the_named_file": "C20", "metadata_does_not_claim_a_predecessor": "C20"}, **common))
+        property_clauses={"reads_the_named_file": "C20", "metadata_does_not_claim_a_predecessor": "C20", "reads_it_in_its_own_dialect": "C20"}, **common))
     cs.append(Contract(
         target=f"{CPS}::CsvPaths._load_csvpath", variant="results_reference_as_file", types=types,
         requires=["not csvpath.g_preceding", "filename.startswith('$')", HAS_BRACKET],
-        modifies=["csvpath.g_last_parsed", "csvpath.g_parse_calls", "csvpath.metadata"], raises={"Exception": {"when": "True", "exact": False}},
-        ensures={"reads_the_referenced_members_data_file": "csvpath.g_last_parsed == '$' + ufun_str('data_file_for_reference', filename) + %s" % match_part},
+        modifies=["csvpath.g_last_parsed", "csvpath.g_parse_calls", "csvpath.metadata", "csvpath.delimiter", "csvpath.quotechar"], raises={"Exception": {"when": "True", "exact": False}},
+        ensures={"reads_the_referenced_members_data_file": "csvpath.g_last_parsed == '$' + ufun_str('data_file_for_reference', filename) + %s" % match_part,
+                 "reads_it_in_the_dialect_data_csv_is_written_in": AS_SAVED},
         callee_variants={"ResultsManager.get_last_named_result": "found"},
-        property_clauses={"reads_the_referenced_members_data_file": "C20"}, **common))
+        property_clauses={"reads_the_referenced_members_data_file": "C20", "reads_it_in_the_dialect_data_csv_is_written_in": "C20"}, **common))
     return cs
 
 
 def bounded(tier, seed):
     return [{"name": "C20.bounded", "script": "native/bounded_C20.py",
              "scope": "A: chains of 2-3 filters out of 5 (every third permutation in quick, all in thorough) x source-mode preceding from every suffix x 3 files, "
-                      "collect_paths; B: variable references to falsy / string / tracked final values after 1-3 producer runs, results reference as file name"}]
+                      "collect_paths, plus every 4th chain over a semicolon-delimited file read by CsvPaths(delimiter=';'); B: variable references to falsy / string / "
+                      "tracked final values and header references (plain, padded and empty cells) after 1-3 producer runs, results reference as file name by "
+                      ":last, :first and exact run directory name"}]
 
 
 LEVEL = "other"
